@@ -79,7 +79,7 @@ pub trait Prop: Sync {
     }
 }
 
-#[derive(Clone, Debug)]
+#[derive(Clone, Debug, Serialize, serde::Deserialize)]
 pub struct Violation {
     pub key: String,
     pub clause: String,
@@ -89,7 +89,7 @@ pub struct Violation {
     pub count: u64,
 }
 
-#[derive(Default)]
+#[derive(Default, Serialize, serde::Deserialize)]
 pub struct Acc {
     pub evaluations: u64,
     pub execs: u64,
